@@ -123,7 +123,7 @@ def compile_known(klist, hname):
         pred = k.get('predicate', 'True')
         def match(label, pat=pat): return re.fullmatch(pat, label) is not None
         def formula(E, pred=pred):
-            env = {'And': z3.And, 'Or': z3.Or, 'Not': z3.Not, 'True': True, 'False': False, 'ULT': z3.ULT, 'ULE': z3.ULE, 'UGT': z3.UGT, 'UGE': z3.UGE}
+            env = {'re': re, 'And': z3.And, 'Or': z3.Or, 'Not': z3.Not, 'True': True, 'False': False, 'ULT': z3.ULT, 'ULE': z3.ULE, 'UGT': z3.UGT, 'UGE': z3.UGE}
             names = {}
             for lab, (kind, term) in E.P.nondets.items():
                 names[re.sub(r'[^A-Za-z0-9_]', '_', lab)] = term
